@@ -21,20 +21,22 @@ U32, I32, U128, I128, USIZE, ISIZE = S("u32"), S("i32"), S("u128"), S("i128"), S
 NZU16, NZU64, NZI64, NZI128 = S("NonZeroU16"), S("NonZeroU64"), S("NonZeroI64"), S("NonZeroI128")
 
 
-def field(ident, ty, rename=None, default=None, skip=False, mapfn=False, frm=None, missing_fn=False, error=None, param=None, needs=False):
+def field(ident, ty, rename=None, default=None, skip=False, mapfn=False, frm=None, missing_fn=False, error=None, param=None, needs=False, split=False):
     """default: None | "trait" | ("expr", rust_expr, rv); param: the field's Rust type is this type parameter of the definition
     (instantiated once, with `ty`); needs: the field carries `needs_predicate` (else the container carries a where_predicate)"""
     return {"ident": ident, "ty": ty, "rename": rename, "default": default, "skip": skip, "map": mapfn, "from": frm,
-            "missing_fn": missing_fn, "error": error, "param": param, "needs": needs}
+            "missing_fn": missing_fn, "error": error, "param": param, "needs": needs, "split": split}
 
 
-def struct(name, fields, rename_all=None, deny=None, error=None, validate=False, cfrom=None):
+def struct(name, fields, rename_all=None, deny=None, error=None, validate=False, cfrom=None, setelem=False):
+    """setelem: the type also derives Eq / Hash / Ord so that it can be an element of a set"""
     return {"kind": "struct", "name": name, "fields": fields, "rename_all": rename_all, "deny": deny, "error": error,
-            "validate": validate, "cfrom": cfrom}
+            "validate": validate, "cfrom": cfrom, "setelem": setelem}
 
 
-def variant(ident, fields=None, rename=None, rename_all=None):
-    return {"ident": ident, "fields": fields, "rename": rename, "rename_all": rename_all}
+def variant(ident, fields=None, rename=None, rename_all=None, split=False):
+    """split: every attribute of the variant in a #[deserr(..)] list of its own"""
+    return {"ident": ident, "fields": fields, "rename": rename, "rename_all": rename_all, "split": split}
 
 
 def enum(name, variants, tag=None, rename_all=None, deny=None, error=None, validate=False):
@@ -132,6 +134,25 @@ DEFS = [
     struct("GenNeeds", [field("item", U8, param="T", needs=True), field("count", U8, default="trait")], error="RecErr"),
     struct("GenWhere", [field("first_item", ("vec", BOOL), param="T"), field("other", ("opt", U8), param="U")], rename_all="camelCase", deny="default"),
     enum("GenEnum", [variant("Unit"), variant("Holds", [field("inner", U8, param="T", needs=True)])], tag="kind", error="RecErr"),
+    # fifth seeding round: conversions on renamed fields, tags that a rename rule would alter, digit / upper-case boundaries in variant
+    # names, non-ASCII field identifiers under lowercase, attributes spread over several #[deserr(..)] lists, identifiers with leading /
+    # trailing underscores, derived types as elements of sets and tuples
+    struct("FTryRename", [field("max_hits", U8, frm={"kind": "try", "ty": U8, "ref": False}, rename="p"),
+                          field("page_size", U8, frm={"kind": "try", "ty": U8, "ref": True}), field("plain_one", BOOL, default="trait")],
+           error="RecErr", rename_all="camelCase"),
+    enum("ETagSnake", [variant("UnitSquare"), variant("RoundThing", [field("line_width", U8)])], tag="shape_kind", rename_all="camelCase"),
+    enum("ETagUpper", [variant("Aa"), variant("Bb", [field("Xy", U8)], rename_all="lowercase")], tag="Kind", rename_all="lowercase", deny="default"),
+    enum("EDigitsCamel", [variant("Http2Only"), variant("V2Alpha"), variant("QuicV1"), variant("HTTPServer2")], rename_all="camelCase"),
+    enum("ETagDigitsCamel", [variant("Http2Only"), variant("V2Alpha", [field("ipv6_addr", U8)], rename_all="camelCase")], tag="proto", rename_all="camelCase"),
+    struct("SUnicodeLower", [field("Écart", U8), field("CÔTÉ", BOOL, default="trait")], rename_all="lowercase", deny="default"),
+    enum("ESplit", [variant("Pear", [field("type_of_pear", U8), field("b", BOOL, rename="bee", default="trait", split=True)], rename="pear", rename_all="camelCase", split=True),
+                    variant("Apple", [field("core_size", U8)])], tag="fruit"),
+    struct("SSplit", [field("long_name", U8, rename="ln", default="trait", split=True), field("other_name", BOOL, rename="on", mapfn=True, split=True)], error="RecErr"),
+    struct("SUnderscore", [field("type_", U8), field("_private", BOOL, default="trait"), field("Kind_", U8, default="trait")], deny="default"),
+    struct("SUnderscoreLower", [field("type_", U8), field("_Private", BOOL, default="trait")], rename_all="lowercase", deny="default"),
+    struct("SUnderscoreCamel", [field("type_", U8), field("_private_thing", BOOL, default="trait"), field("two__words", U8, default="trait")], rename_all="camelCase", deny="default"),
+    struct("SDenySet", [field("a", U8), field("b", ("opt", BOOL))], deny="default", setelem=True),
+    struct("FValidateSet", [field("a", U8), field("b", U8, default="trait")], error="RecErr", validate=True, setelem=True),
     # validate returning the container's own error type
     struct("FValidateOwn", [field("a", U8), field("b", BOOL, default="trait")], error="RecErr", validate="own"),
     enum("EValidateOwn", [variant("A"), variant("B", [field("x", U8)])], tag="t", error="RecErr", validate="own"),
@@ -166,6 +187,10 @@ ENTRIES = [
     ("vec", ("cs", "String")), ("hset", ("opt", U8)),
     ("ref", "FFrom"), ("ref", "FTry"), ("ref", "FTryF"), ("ref", "FMap"), ("ref", "FValidate"), ("ref", "FMissing"), ("ref", "FDenyFn"), ("ref", "FAll"),
     ("ref", "GTry"), ("ref", "GEnum"), ("ref", "GCTry"), ("vec", ("ref", "GTry")),
+    ("ref", "FTryRename"), ("ref", "ETagSnake"), ("ref", "ETagUpper"), ("ref", "EDigitsCamel"), ("ref", "ETagDigitsCamel"), ("ref", "SUnicodeLower"),
+    ("ref", "ESplit"), ("ref", "SSplit"), ("ref", "SUnderscore"), ("ref", "SUnderscoreLower"), ("ref", "SUnderscoreCamel"),
+    ("tup", [("ref", "SDeny"), ("ref", "SDeny")]), ("bset", ("ref", "SDenySet")), ("hset", ("ref", "SDenySet")), ("bset", ("ref", "FValidateSet")),
+    ("vec", ("ref", "FTryRename")),
     ("ref", "FValidateOwn"), ("ref", "EValidateOwn"), ("ref", "GenNeeds"), ("ref", "GenWhere"), ("ref", "GenEnum"), ("vec", ("ref", "GenNeeds")),
     ("ref", "CFrom"), ("ref", "CFromV"), ("ref", "CTry"), ("ref", "EValidate"), ("ref", "EUnitValidate"), ("ref", "FNest"), ("vec", ("ref", "FTry")),
 ]
